@@ -47,6 +47,29 @@ fn bytes_biased(t: &mut Tape, rng: &mut SimRng, len: usize) -> Vec<u8> {
     v
 }
 
+fn le_add_small(v: &mut [u8], k: u8) {
+    let mut c = k as u16;
+    for x in v.iter_mut() {
+        let s = *x as u16 + c;
+        *x = s as u8;
+        c = s >> 8;
+    }
+}
+
+fn le_sub_small(v: &mut [u8], k: u8) {
+    let mut bw = k as i16;
+    for x in v.iter_mut() {
+        let d = *x as i16 - bw;
+        if d < 0 {
+            *x = (d + 256) as u8;
+            bw = 1;
+        } else {
+            *x = d as u8;
+            bw = 0;
+        }
+    }
+}
+
 fn len_biased(t: &mut Tape, natural: usize) -> usize {
     match t.usize(9) {
         0 => 0,
@@ -112,7 +135,17 @@ macro_rules! prime_field_machine {
                     _ => {
                         // strict decoders on boundary byte strings: Option-ness and status are transcript material
                         let l = if t.chance(3, 4) { el } else { len_biased(t, el) };
-                        let b = bytes_biased(t, rng, l);
+                        let mut b = bytes_biased(t, rng, l);
+                        if t.chance(1, 3) {
+                            // neighbours of the modulus itself: p-3 .. p+3 (p-1 comes from the type's own arithmetic)
+                            b = (<T>::ZERO - <T>::ONE).encode().to_vec();
+                            let k = t.usize(7);
+                            if k >= 2 {
+                                le_add_small(&mut b, (k - 2) as u8);
+                            } else {
+                                le_sub_small(&mut b, (2 - k) as u8);
+                            }
+                        }
                         let d = <T>::decode(&b);
                         let (v2, st) = <T>::decode_ct(&b);
                         status!(out, concat!($name, ".decode_ct"), st);
